@@ -89,6 +89,12 @@ func (em Extensions) Validate() error {
 		if len(kd.Values) > 0 && !kd.HasCode(ev) {
 			err[ks] = fmt.Errorf("value '%s' invalid", ev)
 		}
+		if len(kd.Values) == 0 {
+			// free or pattern based values must still be well formed codes
+			if e := ev.Validate(); e != nil {
+				err[ks] = e
+			}
+		}
 		if kd.Pattern != "" {
 			re, rerr := regexp.Compile(kd.Pattern)
 			if rerr != nil {
